@@ -20,13 +20,6 @@ Proof. repeat split; reflexivity. Qed.
 Lemma app_assoc_s (a b c : string) : (a ++ b) ++ c = a ++ (b ++ c).
 Proof. induction a as [|x a IH]; simpl; [reflexivity | now rewrite IH]. Qed.
 
-Fixpoint ends_nl (s : string) : bool :=
-  match s with
-  | EmptyString => true
-  | String c EmptyString => Ascii.eqb c nl
-  | String _ r => ends_nl r
-  end.
-
 Lemma ends_nl_cons2 a c r : ends_nl (String a (String c r)) = ends_nl (String c r).
 Proof. reflexivity. Qed.
 
@@ -99,7 +92,20 @@ Qed.
 
 Lemma ends_nl_add_line f l : ends_nl (add_line f l) = true.
 Proof.
-  unfold add_line. rewrite <- app_assoc_s. rewrite ends_nl_app_char. reflexivity.
+  unfold add_line. rewrite <- !app_assoc_s. rewrite ends_nl_app_char. reflexivity.
+Qed.
+
+Lemma lines_app_nl f g : ends_nl f = false -> lines (f ++ String nl g) = (lines f ++ lines g)%list.
+Proof.
+  induction f as [|a f IH]; intros H; [discriminate|].
+  destruct f as [|c f'].
+  - simpl in H. simpl append. rewrite (lines_cons_eq a (String nl g)), H.
+    rewrite (lines_cons_eq nl g). simpl. rewrite H. reflexivity.
+  - rewrite ends_nl_cons2 in H. specialize (IH H).
+    change (String a (String c f') ++ String nl g) with (String a (String c f' ++ String nl g)).
+    rewrite (lines_cons_eq a (String c f' ++ String nl g)), (lines_cons_eq a (String c f')). rewrite IH.
+    destruct (Ascii.eqb a nl); [reflexivity|].
+    destruct (lines (String c f')) eqn:E; [apply lines_nil_inv in E; discriminate|]. reflexivity.
 Qed.
 
 Lemma ends_nl_unlines ts : ends_nl (unlines ts) = true.
@@ -108,12 +114,14 @@ Proof.
   destruct (unlines ts) eqn:E; [reflexivity|]. rewrite ends_nl_cons2. exact IH.
 Qed.
 
-(* F1: appending a line to a newline-terminated file adds exactly that line *)
+(* F1: addLineToFile adds exactly that line, whether or not the file ended in a newline *)
 Lemma lines_add_line f l :
-  ends_nl f = true -> contains_char nl l = false -> lines (add_line f l) = (lines f ++ [l])%list.
+  contains_char nl l = false -> lines (add_line f l) = (lines f ++ [l])%list.
 Proof.
-  intros Hf Hl. unfold add_line. rewrite lines_app by exact Hf.
-  rewrite (lines_cons l "" Hl). reflexivity.
+  intros Hl. unfold add_line. destruct (ends_nl f) eqn:Hf.
+  - simpl append. rewrite lines_app by exact Hf. rewrite (lines_cons l "" Hl). reflexivity.
+  - change (String nl "" ++ l ++ String nl "") with (String nl (l ++ String nl "")).
+    rewrite lines_app_nl by exact Hf. rewrite (lines_cons l "" Hl). reflexivity.
 Qed.
 
 (* F2: removeLineFromFile keeps exactly the scanner tokens different from the line *)
@@ -267,7 +275,7 @@ Proof.
   unfold line_susp. change line_susp_prefix with "suspicious_peers=". simpl. exact Hn.
 Qed.
 
-(* ---------- canonical files: everything outside the three known defect patterns ---------- *)
+(* ---------- canonical files: everything outside the known defect patterns ---------- *)
 Definition line_ok (t : string) : bool :=
   match parse_line t with
   | LHeader _ => false           (* known finding: appended lines fall into the section *)
@@ -284,8 +292,7 @@ Definition line_ok (t : string) : bool :=
   | _ => true
   end.
 
-(* known finding: an unterminated last line is glued to the appended one *)
-Definition canonical (f : string) : bool := ends_nl f && forallb line_ok (lines f).
+Definition canonical (f : string) : bool := forallb line_ok (lines f).
 
 Lemma lk_allow : lookup_key "allowlisted_peers" = KField FAllow. Proof. reflexivity. Qed.
 Lemma lk_susp : lookup_key "suspicious_peers" = KField FSusp. Proof. reflexivity. Qed.
@@ -425,8 +432,8 @@ Proof.
   induction (chars s) as [|c r IH]; [reflexivity|]. simpl forallb. rewrite IH, hex_spec. reflexivity.
 Qed.
 
-Lemma canonical_split f : canonical f = true -> ends_nl f = true /\ forallb line_ok (lines f) = true.
-Proof. unfold canonical. intros H. apply andb_true_iff in H. exact H. Qed.
+Lemma canonical_split f : canonical f = true -> forallb line_ok (lines f) = true.
+Proof. unfold canonical. intros H. exact H. Qed.
 
 Lemma reload_ok f m p : parse_file f = POk p -> reload f m = (false, mkSt f p).
 Proof. unfold reload. intros ->. reflexivity. Qed.
@@ -436,12 +443,12 @@ Lemma add_refines w f m pk :
   let f' := add_line f (line_w w pk) in
   canonical f' = true /\ parse_file f' = POk (upd_l w m (get_l w m ++ [pk])%list).
 Proof.
-  intros Hc Hp Hv f'. destruct (canonical_split _ Hc) as [He Hl].
+  intros Hc Hp Hv f'. pose proof (canonical_split _ Hc) as Hl.
   assert (Hn : contains_char nl (line_w w pk) = false) by (destruct w; [apply no_nl_line_allow | apply no_nl_line_susp]; exact Hv).
   assert (Hk : line_ok (line_w w pk) = true) by (destruct w; [apply line_ok_allow | apply line_ok_susp]; exact Hv).
   assert (L : lines f' = (lines f ++ [line_w w pk])%list) by (apply lines_add_line; assumption).
   split.
-  - unfold canonical. rewrite L, forallb_app, Hl. unfold f'. rewrite ends_nl_add_line. simpl. rewrite Hk. reflexivity.
+  - unfold canonical. rewrite L, forallb_app, Hl. simpl. rewrite Hk. reflexivity.
   - unfold parse_file in *. rewrite L, parse_lines_app by exact Hl. rewrite Hp.
     destruct w; simpl line_w; simpl parse_lines.
     + rewrite (parse_line_allow pk Hv), lk_allow. reflexivity.
@@ -456,11 +463,10 @@ Lemma remove_refines w f m pk :
   let f' := remove_line f (line_w w pk) in
   canonical f' = true /\ parse_file f' = POk (rem_l w pk m).
 Proof.
-  intros Hc Hp Hv f'. destruct (canonical_split _ Hc) as [He Hl].
+  intros Hc Hp Hv f'. pose proof (canonical_split _ Hc) as Hl.
   pose proof (lines_remove_line f (line_w w pk)) as L. fold f' in L.
   split.
-  - unfold canonical. rewrite L. unfold f', remove_line. rewrite ends_nl_unlines. simpl.
-    apply line_ok_filter. exact Hl.
+  - unfold canonical. rewrite L. apply line_ok_filter. exact Hl.
   - unfold parse_file in *. rewrite L. rewrite <- (rem_l_start w pk). apply parse_remove; assumption.
 Qed.
 
@@ -470,7 +476,7 @@ Lemma flag_refines (b : bool) f m :
                      (if b then line_swaps_true else line_swaps_false) in
   canonical f' = true /\ parse_file f' = POk (with_new m b).
 Proof.
-  intros Hc Hp f'. destruct (canonical_split _ Hc) as [He Hl].
+  intros Hc Hp f'. pose proof (canonical_split _ Hc) as Hl.
   set (lr := if b then line_swaps_false else line_swaps_true) in *.
   set (la := if b then line_swaps_true else line_swaps_false) in *.
   assert (Hla : contains_char nl la = false /\ line_ok la = true /\
@@ -480,11 +486,11 @@ Proof.
   { destruct b; [exists "false", false | exists "true", true]; split; reflexivity. }
   pose proof (lines_remove_line f lr) as L1.
   assert (L : lines f' = (filter (fun t => negb (String.eqb t lr)) (map drop_cr (lines f)) ++ [la])%list).
-  { unfold f'. rewrite lines_add_line; [rewrite L1; reflexivity | apply ends_nl_unlines | exact Hn]. }
+  { unfold f'. rewrite lines_add_line; [rewrite L1; reflexivity | exact Hn]. }
   assert (Hf : forallb line_ok (filter (fun t => negb (String.eqb t lr)) (map drop_cr (lines f))) = true)
     by (apply line_ok_filter; exact Hl).
   split.
-  - unfold canonical. rewrite L, forallb_app, Hf. unfold f'. rewrite ends_nl_add_line. simpl. rewrite Hk. reflexivity.
+  - unfold canonical. rewrite L, forallb_app, Hf. simpl. rewrite Hk. reflexivity.
   - unfold parse_file in *. rewrite L, parse_lines_app by exact Hf.
     destruct (parse_remove_flag lr Hlr (lines f) Hl start_policy m Hp (p_allow_new start_policy)) as (b2 & G).
     change (with_new start_policy (p_allow_new start_policy)) with start_policy in G. rewrite G.
@@ -648,7 +654,7 @@ Definition ex_pk2 : string := "03bbbbbbbbbbbbbbbbbbbbbbbbbbbbbbbbbbbbbbbbbbbbbbb
 Definition ex_file : string :=
   "# peers" ++ String cr (String nl "") ++ "allowlisted_peers=" ++ ex_pk1 ++ String cr (String nl "") ++
   "Allow_New_Swaps = whatever" ++ String nl "" ++ " accept_all_peers = 0 " ++ String nl "" ++
-  "min_swap_amount_msat=5" ++ String nl "".
+  "min_swap_amount_msat=5".  (* no final newline *)
 
 Example ex_file_canonical : canonical ex_file = true. Proof. vm_compute. reflexivity. Qed.
 Example ex_file_parses :
